@@ -77,7 +77,7 @@ fn signatures(log: &[Event], np: usize) -> (Vec<u64>, u64) {
     (sigs, multi)
 }
 
-fn run_history<T: Sc>(spec: &ProblemSpec, hist: &[Vec<f64>], pool: Option<&rayon::ThreadPool>, delay: u64) -> Option<(Vec<Snap>, Vec<Event>, AnyProblem<T>)> {
+fn run_history<T: Sc>(spec: &ProblemSpec, hist: &[Vec<f64>], pool: Option<&rayon::ThreadPool>, delay: u64, fault_k: Option<usize>) -> Option<(Vec<Snap>, Vec<Event>, AnyProblem<T>)> {
     let ctl = SpyCtl::logging();
     if delay != 0 {
         ctl.delay_seed.store(delay, SeqCst);
@@ -90,14 +90,25 @@ fn run_history<T: Sc>(spec: &ProblemSpec, hist: &[Vec<f64>], pool: Option<&rayon
             prob.set_params(&DVector::from_iterator(a.len(), a.iter().map(|v| T::of(*v))));
             snaps.push(snap(&prob, true));
         }
-        Some((snaps, prob))
+        let clean_log = ctl.log_len();
+        if let Some(k) = fault_k {
+            // the derivative for parameter k fails during one Jacobian query, then works again
+            ctl.fail_deriv_k.store(k as i64, SeqCst);
+            snaps.push(snap(&prob, true));
+            ctl.fail_deriv_k.store(-1, SeqCst);
+            snaps.push(snap(&prob, true));
+        }
+        Some((snaps, prob, clean_log))
     };
     let r = match pool {
         Some(p) => p.install(body),
         None => body(),
     };
-    let (snaps, prob) = r?;
-    Some((snaps, ctl.take_log(), prob))
+    let (snaps, prob, clean_log) = r?;
+    // schedule signatures are taken from the fault-free part of the log only
+    let mut log = ctl.take_log();
+    log.truncate(clean_log);
+    Some((snaps, log, prob))
 }
 
 fn par_case<T: Sc>(rng: &mut Rng, case: u64, out: &mut CaseOut, pools: &[usize], delay_seeds: usize) {
@@ -117,7 +128,12 @@ fn par_case<T: Sc>(rng: &mut Rng, case: u64, out: &mut CaseOut, pools: &[usize],
     }
     let mut seq_spec = spec.clone();
     seq_spec.par = false;
-    let Some((seq_snaps, _, _)) = run_history::<T>(&seq_spec, &hist, None, 0) else {
+    // in 40 % of the cases the history ends with a Jacobian query during which one derivative fails
+    let fault_k = if rng.chance(0.4) { Some(rng.below(np)) } else { None };
+    if fault_k.is_some() {
+        out.count("histories_with_failing_derivative");
+    }
+    let Some((seq_snaps, _, _)) = run_history::<T>(&seq_spec, &hist, None, 0, fault_k) else {
         violation(out, stream, case, "valid sequential problem rejected", spec.to_json());
         return;
     };
@@ -126,7 +142,7 @@ fn par_case<T: Sc>(rng: &mut Rng, case: u64, out: &mut CaseOut, pools: &[usize],
         let pool = rayon::ThreadPoolBuilder::new().num_threads(t).build().unwrap();
         for d in 0..delay_seeds {
             let delay = if d == 0 { 0 } else { crate::rng::hash_u64s([case, t as u64, d as u64]) | 1 };
-            let Some((snaps, log, prob)) = run_history::<T>(&spec, &hist, Some(&pool), delay) else {
+            let Some((snaps, log, prob)) = run_history::<T>(&spec, &hist, Some(&pool), delay, fault_k) else {
                 violation(out, stream, case, "valid parallel problem rejected", spec.to_json());
                 return;
             };
@@ -288,7 +304,7 @@ pub fn sanitizer_workload(seed: u64, cases: u64, nmax: usize, len: usize) -> (u6
         }
         for t in [2usize, 4] {
             let pool = rayon::ThreadPoolBuilder::new().num_threads(t).build().unwrap();
-            let r = if c % 3 == 0 { run_history::<f32>(&spec, &hist[..1], Some(&pool), 0).map(|(s, _, _)| s) } else { run_history::<f64>(&spec, &hist[..1], Some(&pool), 0).map(|(s, _, _)| s) };
+            let r = if c % 3 == 0 { run_history::<f32>(&spec, &hist[..1], Some(&pool), 0, None).map(|(s, _, _)| s) } else { run_history::<f64>(&spec, &hist[..1], Some(&pool), 0, None).map(|(s, _, _)| s) };
             if let Some(snaps) = r {
                 for s in snaps {
                     obs += 1;
@@ -307,7 +323,7 @@ pub fn sanitizer_workload(seed: u64, cases: u64, nmax: usize, len: usize) -> (u6
 }
 
 pub fn run(ctx: &Ctx) {
-    ctx.rule("pools-and-schedules: problems with P = 2..16 nonlinear parameters (hand-written/builder-made multi-exponentials, table models; 1..3 right-hand sides; weights) built through the parallel constructors and run inside explicit rayon pools (quick {1,2,4,16}; thorough 1..16) with seeded spin/yield delays inside eval_partial_deriv; each run is compared with the sequential problem (tolerance; bitwise agreement recorded), with the first parallel run (bitwise: independence of pool size and schedule) and before/after into_sequential (bitwise). Schedule signature of a Jacobian = (column, worker) pairs in completion order from the ModelSpy log. fits: parallel vs sequential fit under random optimizer settings. thorough adds ThreadSanitizer and Miri (many seeds) over the parallel Jacobian workload. distinct = problem hash; all cases non-trivial (P>=2)");
+    ctx.rule("[40 % of the histories end with a Jacobian query during which the derivative of one parameter fails (both flavours must report no Jacobian and keep residuals), followed by a successful one] pools-and-schedules: problems with P = 2..16 nonlinear parameters (hand-written/builder-made multi-exponentials, table models; 1..3 right-hand sides; weights) built through the parallel constructors and run inside explicit rayon pools (quick {1,2,4,16}; thorough 1..16) with seeded spin/yield delays inside eval_partial_deriv; each run is compared with the sequential problem (tolerance; bitwise agreement recorded), with the first parallel run (bitwise: independence of pool size and schedule) and before/after into_sequential (bitwise). Schedule signature of a Jacobian = (column, worker) pairs in completion order from the ModelSpy log. fits: parallel vs sequential fit under random optimizer settings. thorough adds ThreadSanitizer and Miri (many seeds) over the parallel Jacobian workload. distinct = problem hash; all cases non-trivial (P>=2)");
     ctx.assume("rayon's scheduler is not controlled: schedule coverage is whatever pool sizes and delay injection produce; the evidence reports the distinct signatures observed");
     let t = ctx.tier;
     let pools_q: Vec<usize> = vec![1, 2, 4, 16];
